@@ -83,7 +83,7 @@ def gen_events(rng, spec, N):
 
 
 def gen_spec(rng, small=False, datatype=None, version=None, names=None, n_events=None,
-             n_params=None, keywords=True):
+             n_params=None, keywords=True, bulk_p=0.0):
     version = version or rng.choice(['FCS2.0', 'FCS3.0', 'FCS3.1'])
     v3 = version != 'FCS2.0'
     dt = datatype or rng.wchoice([('I', 6), ('F', 2), ('D', 2)])
@@ -183,6 +183,38 @@ def gen_spec(rng, small=False, datatype=None, version=None, names=None, n_events
         pads[0] = 'big:%d' % rng.randint(9999900, 10000100)
     spec['pads'] = pads
     spec['events'] = gen_events(rng, spec, N)
+    if n_params is None and not small and n_events is None and rng.chance(bulk_p):
+        make_bulk(rng, spec)
+    return spec
+
+
+def make_bulk(rng, spec, kind=None):
+    """Turns a layout into a LARGE file (real list-mode files have 10^5..10^6 events): events are described by
+    (n, seed) and drawn with numpy. Two size classes: DATA just over 1 MiB with an awkward number of bytes per
+    event, and DATA over 16 MiB."""
+    kind = kind or rng.choice(['over1MiB', 'over16MiB'])
+    dt = spec['datatype']
+    if kind == 'over1MiB':
+        if dt == 'I':
+            D = rng.randint(1, 3)
+            spec['widths'] = [rng.choice([8, 16, 24, 40]) for _ in range(D)]
+            if sum(spec['widths']) // 8 in (1, 2, 4, 8, 16):
+                spec['widths'][0] = 24
+        bpe = sum(w // 8 for w in spec['widths'])
+        n = (1 << 20) // bpe + rng.randint(50000, 200000)
+    else:
+        D = rng.choice([4, 8])
+        if dt == 'I':
+            spec['widths'] = [rng.choice([16, 32])] * D
+        else:
+            spec['widths'] = [spec['widths'][0]] * D
+        bpe = sum(w // 8 for w in spec['widths'])
+        n = (17 << 20) // bpe + rng.randint(1000, 60000)
+    D = len(spec['widths'])
+    spec['ranges'] = [(1 << w) if dt == 'I' else 262144 for w in spec['widths']]
+    spec['names'] = ['P%d' % (j + 1) for j in range(D)]
+    spec['events'] = []
+    spec['bulk'] = {'n': int(n), 'seed': rng.randint(0, 2 ** 31 - 1), 'kind': kind}
     return spec
 
 
